@@ -4,6 +4,7 @@
 //! every non-null record exactly once, ordered by its embedded time (read with the layout's DECLARED type
 //! and width, by this file, independently of the crate), equal times in file order.
 //!
+//! Two of three files are read under a window whose bounds lie on / 1 microsecond beside record instants (C03).
 //! output   O<TAB>ok|<signature><TAB><detail>     one line per file
 //!          signatures: fixed:order-differs-from-stable-sort, fixed:record-missing-or-repeated,
 //!                      fixed:reader-error, fixed:panic;  `skip:<why>` lines are counted, not failures
@@ -119,11 +120,23 @@ fn one(rng: &mut Rng, k: usize, li: usize, dir: &std::path::Path) -> (String, St
         PathToFiletypeResult::Filetype(ft) => ft,
         _ => return ("skip:not-a-plain-filetype".into(), name.into()),
     };
-    let case = format!("layout {:?} name {} records {} times {:?} file {}", t, name, n, times, hex(&data));
     let tz = FixedOffset::east_opt(0).unwrap();
+    // window (C03): two of three files get bounds ON, or 1 microsecond beside, the instants of their own records
+    // (seconds AND microseconds: a layout whose microseconds are dropped from the window key selects wrongly)
+    let usable: Vec<(i128, i128)> = times.iter().copied().filter(|tv| *tv != (0, 0) && tv.0 > 0 && tv.0 < 8_000_000_000 && (0..1_000_000).contains(&tv.1)).collect();
+    let mut bound = |rng: &mut Rng| -> Option<(i128, i128)> {
+        if usable.is_empty() || rng.chance(1, 4) { return None; }
+        let (s0, u0) = usable[rng.below(usable.len())];
+        let total = s0 * 1_000_000 + u0 + [0i128, 0, 0, 1, -1][rng.below(5)];
+        Some((total.div_euclid(1_000_000), total.rem_euclid(1_000_000)))
+    };
+    let (wa, wb) = if (k / L.len()) % 3 == 0 { (None, None) } else { (bound(rng), bound(rng)) };
+    let to_dt = |b: Option<(i128, i128)>| b.map(|(s_, u_)| chrono::DateTime::from_timestamp(s_ as i64, (u_ * 1000) as u32).unwrap().with_timezone(&tz));
+    let (dta, dtb) = (to_dt(wa), to_dt(wb));
+    let case = format!("layout {:?} name {} records {} window {:?}..{:?} times {:?} file {}", t, name, n, wa, wb, times, hex(&data));
     let fp2 = fpath.clone();
     let res = guarded(move || {
-        let mut r = match FixedStructReader::new(fp2, ft, 0x200, tz, None, None) {
+        let mut r = match FixedStructReader::new(fp2, ft, 0x200, tz, dta, dtb) {
             ResultFixedStructReaderNew::FileOk(r) => r,
             other => return Err(format!("{:?}", other).chars().take(60).collect::<String>()),
         };
@@ -152,6 +165,11 @@ fn one(rng: &mut Rng, k: usize, li: usize, dir: &std::path::Path) -> (String, St
     let (det, order, err) = match res {
         Err(m) => return ("fixed:panic".into(), format!("{} :: {}", m, case)),
         Ok(Err(e)) => {
+            // "nothing inside the window" is a wrong answer when some non-null record IS inside it
+            let inwin0 = |tv: &(i128, i128)| wa.map_or(true, |a| *tv >= a) && wb.map_or(true, |b| *tv <= b);
+            if e.contains("WithinDtFilters") && times.iter().any(|tv| *tv != (0, 0) && inwin0(tv)) {
+                return ("fixed:window-selects-wrong-records".into(), format!("reader says no record inside the window :: {}", case));
+            }
             // every record null, or the scorer rejected the file: not this oracle's business
             return (format!("skip:new-{}", e.split(|c: char| !c.is_alphanumeric()).next().unwrap_or("err")), String::new());
         }
@@ -164,7 +182,8 @@ fn one(rng: &mut Rng, k: usize, li: usize, dir: &std::path::Path) -> (String, St
         return ("fixed:reader-error".into(), format!("{} :: {}", e, case));
     }
     // expected: non-null records in stable order of (sec, usec)
-    let mut exp: Vec<(i128, i128, u64)> = times.iter().enumerate().filter(|(_, tv)| **tv != (0, 0))
+    let inwin = |tv: &(i128, i128)| wa.map_or(true, |a| *tv >= a) && wb.map_or(true, |b| *tv <= b);
+    let mut exp: Vec<(i128, i128, u64)> = times.iter().enumerate().filter(|(_, tv)| **tv != (0, 0) && inwin(tv))
         .map(|(i, tv)| (tv.0, tv.1, (i * sz) as u64)).collect();
     exp.sort_by_key(|x| (x.0, x.1, x.2));
     let expo: Vec<u64> = exp.iter().map(|x| x.2).collect();
@@ -175,6 +194,9 @@ fn one(rng: &mut Rng, k: usize, li: usize, dir: &std::path::Path) -> (String, St
     a.sort();
     let mut b = expo.clone();
     b.sort();
+    if a != b && (wa.is_some() || wb.is_some()) {
+        return ("fixed:window-selects-wrong-records".into(), format!("printed offsets {:?} expected {:?} :: {}", order, expo, case));
+    }
     if a != b {
         return ("fixed:record-missing-or-repeated".into(), format!("printed offsets {:?} expected {:?} :: {}", order, expo, case));
     }
